@@ -14,14 +14,14 @@ TECHNIQUE = ('runtime monitoring: Arpeggio match hook asserting that no identifi
              'word-boundary semantics for the glued cases')
 RULE = ('exhaustive part: 10 literal shapes (letters, mixed case, underscore, digit inside, unicode, digit-leading, symbol, '
         'symbol+letters, dotted, with space) x 5 followers (space, symbol, letter, digit, underscore) x {ID, INT, regex, '
-        'literal} follower rules, and each shape again written with escape sequences (first / last / every word character as \\xNN or \\uNNNN); random part: grammars with such literals (C01 generator, rich literal menu), inputs with '
+        'literal} follower rules, and each shape again written with escape sequences (first / last / every word character as \\xNN or \\uNNNN); random part: grammars with such literals (C01 generator, rich literal menu; in a third of them keyword texts recur in several roles - sequence head, separator, assigned value, suppressed element), inputs with '
         'and without glued tokens. Checked: (i) hook: an identifier-like literal never matches when the next character is a '
         'word character; (ii) literals that are not identifier-like match identically with autokwd on and off (hook events '
         'compared); (iii) if the autokwd-off derivation has no identifier-like literal directly followed by a word '
         'character, both settings accept with equal models, otherwise the outcome equals the word-boundary semantics. '
         'distinct = (grammar skeleton, input token kinds); non-trivial = input has a literal glued to a following word character')
 REQUIRED = {'inputs': 300, 'literal_matches_checked': 2000, 'glued_keyword_cases': 50, 'glued_symbol_cases': 30,
-            'on_off_equal_checked': 200, 'exhaustive_cells': 100, 'escaped_spelling_cells': 40}
+            'on_off_equal_checked': 200, 'exhaustive_cells': 100, 'escaped_spelling_cells': 40, 'grammars_with_reused_keywords': 20}
 EXHAUSTIVE_CLAIM = True
 ML = None
 
@@ -161,6 +161,9 @@ def _one(ctx, i, rep=None):
     r = ctx.rng('g', i)
     gen_ = G(r, 0.0, pskip=0.15, pws=0.0, pcomment=0.2)
     gen_.lit_style = 'rich'
+    if i % 3 == 0:
+        gen_.preuse = 0.25
+        ctx.count('grammars_with_reused_keywords')
     g = gen_.grammar()
     RP.LIT_VARIANT = r.choice([0, 0, 0, 1, 2, 3])
     try:
